@@ -25,7 +25,7 @@ type Gen struct {
 
 // openAvoid: generator features switched off because an open known finding
 // (known_findings.jsonl) would otherwise end most runs at the same divergence.
-var openAvoid = map[string]bool{"option-order": true, "peer-close-while-blocked": true}
+var openAvoid = map[string]bool{"peer-close-while-blocked": true, "unblock-reply-not-blocked": true}
 
 func newGen(seed uint64, stream uint64) *Gen {
 	g := &Gen{r: rand.New(rand.NewPCG(seed, stream)), fam: map[string]bool{}, avoid: map[string]bool{}}
